@@ -128,3 +128,67 @@ def mentions(expr, name):
 
 def text(node):
     return unparse(node)
+
+
+def _loops_of(node):
+    out = []
+    child, par = node, getattr(node, '_parent', None)
+    while par is not None:
+        if isinstance(par, (ast.For, ast.AsyncFor)):
+            out.append((par, 'iter' if child is par.iter else 'body'))
+        elif isinstance(par, ast.While):
+            out.append((par, 'body'))
+        elif isinstance(par, (ast.FunctionDef, ast.AsyncFunctionDef, ast.Lambda)):
+            break
+        child, par = par, getattr(par, '_parent', None)
+    return out
+
+
+def _ln(stmt):
+    ln = getattr(stmt, 'lineno', None)
+    return ln if ln is not None else stmt.target.lineno
+
+
+def _end(stmt):
+    ln = getattr(stmt, 'end_lineno', None)
+    return ln if ln is not None else stmt.iter.end_lineno
+
+
+def reaching(funcnode, name, at):
+    """Bindings of local ``name`` that can reach the read at ``at``:
+    ([(kind, value, stmt)], parameter_still_live).  A binding is considered
+    only where it can reach the read; an unconditional (top-level) rebinding
+    before the read kills the earlier ones; a later binding reaches only
+    around a loop both are in the body of, unless that loop's own target
+    rebinds the name at every iteration."""
+    d = defs(funcnode)
+    vals = d.values.get(name, [])
+    if at is None or getattr(at, 'lineno', None) is None:
+        return list(vals), True
+    at_loops = _loops_of(at)
+    killer = None
+    for kind, v, stmt in vals:
+        if getattr(stmt, '_parent', None) is funcnode and not kind.startswith('iter') and \
+                _end(stmt) < at.lineno and (killer is None or _ln(stmt) > _ln(killer)):
+            killer = stmt
+    out = []
+    for kind, v, stmt in vals:
+        if killer is not None and _ln(stmt) < _ln(killer):
+            continue
+        if _ln(stmt) <= at.lineno:
+            if kind.startswith('iter') and any(l is stmt and part == 'iter'
+                                               for l, part in at_loops):
+                continue
+            # the statement that contains the read does not bind before it evaluates
+            if _ln(stmt) == at.lineno and any(x is at for x in ast.walk(stmt)) and \
+                    not kind.startswith('iter'):
+                continue
+            out.append((kind, v, stmt))
+            continue
+        st_loops = {id(l) for l, part in _loops_of(stmt) if part == 'body'}
+        if any(id(l) in st_loops and part == 'body' and not (
+                isinstance(l, (ast.For, ast.AsyncFor)) and
+                any(isinstance(t, ast.Name) and t.id == name for t in ast.walk(l.target)))
+                for l, part in at_loops):
+            out.append((kind, v, stmt))
+    return out, killer is None
